@@ -299,6 +299,17 @@ def release_loop_inv(ip, env):
     return out
 
 
+# callee contract used by Condition.statistics (C11): the result is an opaque statistics object (its fields are
+# pinned down by StatisticsUnit below, against the body); what callers rely on is that the call changes nothing
+STATISTICS = Contract(
+    "Lock.statistics",
+    requires=lambda h, a: [],
+    cases=[Case("pure", when=lambda pre, a: True, ret_ty=INT, ensures=lambda pre, post, a, ret: [("state_unchanged", z3.And(lock_fields_unchanged(pre, post, a.self), futures_unchanged(pre, post)))])],
+    modifies=set(),  # discharged by StatisticsUnit's frame obligation
+    bind=bind_self,
+)
+
+
 RELEASE_LOOP = LoopSpec(release_loop_inv, modifies={(DQ, "lo"), (DQ, "cnt")})
 
 
@@ -475,8 +486,18 @@ class StatisticsUnit(LockUnit):
         "AsyncIOTaskInfo": Builtin("AsyncIOTaskInfo", lambda ip, t: _TaskInfo(ip.term(t, INT))),
     }
 
+    def on_entry(self, ip, pre, a):
+        super().on_entry(ip, pre, a)
+        self._wset = set()
+        ip.st.writes = (ip.st.writes or []) + [self._wset]
+
     def on_exit(self, ip, pre, a, exc, ret):
         s = a.self
+        extra = {w for w in self._wset if w[0] != "$" and not w[1].startswith("$")}
+        if extra:
+            ip.ctx.fail("Lock.statistics/frame", "frame", f"writes {sorted(extra)}: the callee contract STATISTICS promises an empty frame")
+        else:
+            ip.ctx.oblige("Lock.statistics/frame", z3.BoolVal(True), "frame")
         ok = exc is None and isinstance(ret, tuple) and len(ret) == 3
         ip.ctx.oblige("Lock.statistics/post:returns_three_fields", z3.BoolVal(ok), "post")
         if ok:
